@@ -28,7 +28,9 @@ impl<E> vstd::std_specs::convert::FromSpecImpl<InvalidTransaction> for EVMError<
     open spec fn from_spec(e: InvalidTransaction) -> Self { EVMError::Transaction(e) }
 }
 pub struct GrevmError<E> { pub txid: TxId, pub error: EVMError<E> }
-impl<E> GrevmError<E> { #[verifier::external_body] pub fn clone(&self) -> (r: Self) ensures r == *self { unimplemented!() } }
+// derive(Clone) of revm's EVMError / grevm's GrevmError: structural (assumed)
+impl<E: Clone> Clone for EVMError<E> { #[verifier::external_body] fn clone(&self) -> (r: Self) ensures r == *self { unimplemented!() } }
+impl<E: Clone> Clone for GrevmError<E> { #[verifier::external_body] fn clone(&self) -> (r: Self) ensures r == *self { unimplemented!() } }
 /// revm::DatabaseRef: every answer is a function of the (immutable) database value
 pub trait DBErrorMarker {}
 impl<E: DBErrorMarker> From<E> for EVMError<E> { fn from(e: E) -> (r: Self) { EVMError::Database(e) } }
